@@ -127,8 +127,42 @@ NoAstJudge(sc, u, r) ==
      THEN If(r.lg # want, Mis("C07", "inline-log", u, r, want, r.lg))
      ELSE If(E.ok /\ ~IsSubseq(ks(ExecLog(E.toks)), 1, ks(r.lg), 1), Mis("C07", "inline-log-derivation", u, r, ks(ExecLog(E.toks)), r.lg))
 
+\* Parse called twice without Reset (PegRuntime!ParseAgain).  The default parser is judged against the semantics: a
+\* failed Parse leaves the instance where it was, so the second call is a parse of its own; a successful one leaves
+\* position and tokens, and the second call goes on from there.  Other option sets are compared with the default parser.
+AgainJudge(sc, du, u, r, k) ==
+  IF r.pn # "" THEN <<Mis(IF IsNoAst(u.opt) THEN "C07" ELSE "C13", "panic-second-parse", u, r, "", r.pn)>>
+  ELSE IF u.opt # ""
+  THEN (IF du = <<>> THEN <<>> ELSE
+        LET j == FindRun(du[1], r, k) IN
+        IF j = 0 THEN <<>>
+        ELSE LET d == du[1].runs[j] IN
+             IF d.pn # "" THEN <<>>
+             ELSE IF IsNoAst(u.opt) THEN CmpFrom("C07", u, r, d, 1, <<"f1", "ok">>)
+             ELSE CmpFrom("C02", u, r, d, 1, IF r.ok /\ d.ok THEN <<"f1", "ok", "tk">> ELSE <<"f1", "ok">>))
+  ELSE
+  LET B == BodyMap(Core(sc.grammar))
+      first == sc.grammar.rules[1].name
+      entry1 == IF r.h = 3002 THEN sc.again.alt ELSE first
+      E1 == Parse(B, r.w, entry1)
+      E2 == IF E1.ok THEN Eval(B, r.w, Ref(first), E1.pos) ELSE Parse(B, r.w, first)
+      toks == IF E1.ok THEN E1.toks \o E2.toks ELSE E2.toks
+      X == ExecWithText(toks, r.w)
+      want == [n \in 1..Len(X) |-> CASE sc.actstyle = "full" -> X[n]
+                                      [] sc.actstyle = "text" -> <<X[n][1], X[n][2], 0, 0>>
+                                      [] OTHER -> <<X[n][1], <<>>, 0, 0>>]
+  IN If(r.f1 # (IF E1.ok THEN 1 ELSE 2), Mis("C01", "second-parse:first-verdict", u, r, E1.ok, r.f1)) \o
+     (IF r.f1 # (IF E1.ok THEN 1 ELSE 2) THEN <<>> ELSE
+      If(r.ok # E2.ok, Mis("C01", "second-parse:verdict", u, r, E2.ok, r.ok)) \o
+      (IF r.ok /\ E2.ok THEN
+         If(r.tk # toks, Mis("C03", "second-parse:tokens", u, r, toks, r.tk)) \o
+         (IF sc.collect.exec      \* Execute must run the actions of the successful derivation, and only those
+          THEN If(Field(r, "ex") # want, Mis("C04", "second-parse:actions", u, r, want, Field(r, "ex"))) ELSE <<>>)
+       ELSE <<>>))
+
 Relative(sc, units, du, u, k) ==
   LET r == u.runs[k] pl == sc.plan[r.c] IN
+  IF r.h >= 3000 THEN AgainJudge(sc, du, u, r, k) ELSE
   IF r.h < 0 THEN   \* an instance used interleaved with (h > -1000) or concurrently to (h <= -1000) other instances:
                     \* PegRuntime!Confinement - it shows what it shows when used alone
      IF r.h <= -2000 THEN <<>>   \* the solo reference of a history with a second Parse (PegRuntime!ParseAgain)
